@@ -1,10 +1,32 @@
-From WR Require Import Lib.Bits Mpq.Sparse Mpq.CompressWrap Props.C03.
+From Coq Require Import NArith List Bool Arith.
+Import ListNotations.
+From WR Require Import Lib.Bits Mpq.Sparse Mpq.CompressWrap Proofs.Compress_proofs Proofs.Sparse_proofs Props.C03.
 Open Scope N_scope.
+
+
 Definition pin_1 : forall (ic : N -> list N -> option (list N)) data m r,
     compress ic data m = Some r -> lenN r <= lenN data := C03_store_raw_never_expands.
-Definition pin_2 : forall c n m, 0 < c -> n <= 2097152 -> n / c <= adaptive_limit c m ->
-    (128 < m -> n / c <= adaptive_limit c m / 2) -> validate_op c n m = true := C03_limits_accept_own_output.
-Definition pin_3 : forall ts, Forall (fun t => token_ok t = true) ts ->
-    lenN (tokens_data ts) < 4294967296 -> (1 <= length (tokens_bytes ts))%nat ->
+Definition pin_2 : forall (ic : N -> list N -> option (list N)) data m r,
+    compress ic data m = Some r ->
+    r = data \/ exists c, ic m data = Some c /\ r = m :: c /\ lenN r < lenN data := C03_compress_tagged.
+Definition pin_3 : forall (ic : N -> list N -> option (list N)) data m r,
+    compress ic data m = Some r -> lenN r = lenN data -> r = data := C03_reader_decision_sound.
+Definition pin_4 : forall (ic : N -> list N -> option (list N)) (id : N -> list N -> N -> option (list N)) data m r,
+    (forall c, ic m data = Some c -> id m c (lenN data) = Some data) ->
+    compress ic data m = Some r -> r <> data -> m <> 0 ->
+    lenN data <= max_decompressed ->
+    validate_op (lenN (tl r)) (lenN data) m = true ->
+    decompress id (tl r) (hd 0 r) (lenN data) = Some data := C03_wrapper_roundtrip.
+Definition pin_5 : forall c n m, 0 < c -> n <= 2097152 ->
+    n / c <= adaptive_limit c m ->
+    (128 < m -> n / c <= adaptive_limit c m / 2) ->
+    validate_op c n m = true := C03_limits_accept_own_output.
+Definition pin_6 : validate_op_old 43 65536 16 = false /\ validate_op 43 65536 16 = true := C03_old_limits_refuted.
+Definition pin_7 : validate_op 48 2097152 16 = false /\ adaptive_limit 48 16 = 30000 /\ 2097152 / 48 = 43690 := C03_limits_refuted_bzip2_2MiB.
+Definition pin_8 : forall ts, Forall (fun t => token_ok t = true) ts ->
+    lenN (tokens_data ts) < 4294967296 ->
+    (1 <= length (tokens_bytes ts))%nat ->
     sparse_decompress (be32_bytes (lenN (tokens_data ts)) ++ tokens_bytes ts) (lenN (tokens_data ts))
     = SOk (tokens_data ts) := C03_sparse_roundtrip_partial.
+Definition pin_9 : forall data, data <> [] -> lenN data < 4294967296 ->
+    exists c, sparse_compress data = Some c /\ sparse_decompress c (lenN data) = SOk data := C03_sparse_roundtrip.
